@@ -314,6 +314,8 @@ void component_constructed(void* comp, const dzn::locator& loc);
 
 // log sink used for the shell's ILog argument
 void log_sink(char level, const std::string& msg);
+// fault kind: the user's ILog object does not outlive the constructor call (the shell keeps what it needs by value)
+bool log_object_is_temporary();
 
 // implemented by the generated glue
 void register_model(Model& m);
